@@ -24,7 +24,7 @@ fn filter_name(file: usize, n: u64) -> String {
 fn write_project(dir: &Path, v: &Value) {
     for (k, groups) in FILES.iter().enumerate() {
         let mut s = String::new();
-        for (name, rule) in groups.iter() { s.push_str(&format!("@ {name}\n    {rule}\n# {name} does its thing\n\n")); }
+        for (name, rule) in groups.iter() { s.push_str(&format!("@ {name}\n    {rule}\n# {name} does its thing\n")); }
         std::fs::write(dir.join(format!("f{}.rsca", k + 1)), s).unwrap();
     }
     let n = v["n"].as_u64().unwrap() as usize;
